@@ -1162,6 +1162,8 @@ func (t *trzszTransfer) recvFileName(path string, progress progressCallback) (fi
 		}
 		fileName = srcFile.getFileName()
 		file, localName, err = t.createDirOrFile(path, srcFile, true)
+	} else if !isSafeFileName(fileName) {
+		err = simpleTrzszError("Invalid file name: %s", fileName)
 	} else {
 		file, localName, err = t.createFile(path, fileName, true, nil)
 	}
